@@ -6,12 +6,19 @@
 
 use crate::value::RV;
 
-/// 0..=40 and the neighbourhoods of the powers of two up to 2^16.
+/// Every size 0..=136 (magic constants of an implementation need not be powers of two: 48, 100,
+/// 123 ...), every multiple of 16 up to 1 024 with its two neighbours, and the neighbourhoods of
+/// the powers of two up to 2^16.
 pub fn thresholds(max: usize) -> Vec<usize> {
-    let mut v: Vec<usize> = (0..=40).collect();
-    for p in [48, 56, 63, 64, 65, 96, 112, 113, 127, 128, 129, 224, 255, 256, 257, 448, 511, 512, 513, 1023, 1024, 1025, 2047, 2048, 2049, 4095, 4096, 4097, 16383, 16384, 16385, 65535, 65536, 65537] {
+    let mut v: Vec<usize> = (0..=136).collect();
+    for k in 9..=64 {
+        v.extend([16 * k - 1, 16 * k, 16 * k + 1]);
+    }
+    for p in [2047, 2048, 2049, 4095, 4096, 4097, 16383, 16384, 16385, 65535, 65536, 65537] {
         v.push(p);
     }
+    v.sort();
+    v.dedup();
     v.retain(|&n| n <= max);
     v
 }
@@ -27,6 +34,13 @@ pub enum Family {
     /// a string of n characters in which the extra bytes of multi-byte characters exactly
     /// cancel the extra characters of the escapes (byte length + 2 == printed size)
     BalancedString,
+    /// n plain characters, then one character of a different kind, then a plain tail: the
+    /// position of the deciding character runs through every size (control character, quote,
+    /// 4-byte character; and a run of 2-byte characters before a control character)
+    RunThenControl,
+    RunThenQuote,
+    RunThenWide,
+    WideRunThenControl,
     /// an object with one key of n characters
     LongKey,
     /// an array of n small numbers
@@ -66,11 +80,15 @@ fn grid_key(len: usize, i: usize) -> String {
     k
 }
 
-pub const FAMILIES: [Family; 15] = [
+pub const FAMILIES: [Family; 19] = [
     Family::AsciiString,
     Family::MixedString,
     Family::EscapedString,
     Family::BalancedString,
+    Family::RunThenControl,
+    Family::RunThenQuote,
+    Family::RunThenWide,
+    Family::WideRunThenControl,
     Family::LongKey,
     Family::Array,
     Family::DistinctKeys,
@@ -89,6 +107,7 @@ impl Family {
     pub fn max(self, thorough: bool) -> usize {
         match self {
             Family::AsciiString | Family::MixedString | Family::EscapedString | Family::BalancedString | Family::LongKey | Family::Array | Family::NestedArray => 65537,
+            Family::RunThenControl | Family::RunThenQuote | Family::RunThenWide | Family::WideRunThenControl => 4097,
             Family::Integer | Family::Fraction => 4097,
             Family::KeyGrid | Family::KeyGridDup => GRID_LENS.len() * GRID_COUNTS.len() - 1,
             Family::DistinctKeys | Family::DistinctLongKeys => {
@@ -144,6 +163,10 @@ impl Family {
                 }
                 RV::Str(s)
             }
+            Family::RunThenControl => RV::Str(format!("{}\u{1}z", "a".repeat(n))),
+            Family::RunThenQuote => RV::Str(format!("{}\"z", "a".repeat(n))),
+            Family::RunThenWide => RV::Str(format!("{}\u{1f600}z", "a".repeat(n))),
+            Family::WideRunThenControl => RV::Str(format!("{}\u{1f}\u{e9}", "\u{e9}".repeat(n))),
             Family::LongKey => RV::Obj(vec![("k".repeat(n), RV::Null)]),
             Family::Array => RV::Arr((0..n).map(|i| RV::Num((i % 10).to_string())).collect()),
             Family::DistinctKeys => RV::Obj((0..n).map(|i| (format!("k{i}"), RV::Num((i % 7).to_string()))).collect()),
